@@ -693,6 +693,14 @@ func c12GenGame(c *ctx) *c12Game {
 		c.stat("games_len_25plus", 1)
 	}
 
+	c12BuildOps(c, g, moves, p.MoveNumber(), ended && tail == 0, a)
+	return g
+}
+
+// c12BuildOps: the op list of a game record around the given moves: numbering mode, comments, annotations, results, BOM.
+// ply = the ply of the start position; a = the position after the legal part (for the result string).
+func c12BuildOps(c *ctx, g *c12Game, moves []tak.Move, ply int, endedClean bool, a *aboard) {
+	r := c.r
 	// ---- ops: numbering, comments, annotations, results ----
 	mode := r.Intn(8)
 	c.stat(fmt.Sprintf("games_numbering_mode%d", mode), 1)
@@ -717,7 +725,6 @@ func c12GenGame(c *ctx) *c12Game {
 		}
 	}
 	comment(6)
-	ply := p.MoveNumber()
 	drift := 0
 	for i, m := range moves {
 		num := (ply+i)/2 + 1
@@ -769,7 +776,7 @@ func c12GenGame(c *ctx) *c12Game {
 	if r.Intn(5) == 0 { // trailing move number
 		g.ops = append(g.ops, c12Op{kind: 'N', n: (ply+len(moves))/2 + 1 + r.Intn(2)})
 	}
-	if ended && tail == 0 && r.Intn(4) != 0 {
+	if endedClean && r.Intn(4) != 0 {
 		g.ops = append(g.ops, c12Op{kind: 'R', s: c12ResultFor(a)})
 	} else {
 		result(4)
@@ -779,6 +786,119 @@ func c12GenGame(c *ctx) *c12Game {
 	if g.bom {
 		c.stat("games_bom", 1)
 	}
+}
+
+// c12GenEndgame: a record that starts from a TPS tag describing a populated, nearly finished board with a LOW move counter, ends
+// within a few plies of the file (road, full board or exhausted reserves) and goes on with further moves after the end.
+func c12GenEndgame(c *ctx, size int) *c12Game {
+	r := c.r
+	g := &c12Game{note: "endgame-from-tps"}
+	cfg := tak.Config{Size: size}
+	var ps []*tak.Position
+	var ms []tak.Move
+	for try := 0; try < 20; try++ {
+		pol := []int{4, 4, 0, 3, 2}[r.Intn(5)]
+		ps, ms = randomGame(r, cfg, 400, pol, false)
+		if over, _ := ps[len(ps)-1].GameOver(); over && len(ms) >= 3 {
+			break
+		}
+	}
+	n := len(ms)
+	k := 1 + r.Intn(2*size)
+	if r.Intn(2) == 0 {
+		k = 1 + r.Intn(3)
+	}
+	if k > n-2 {
+		k = n - 2
+	}
+	if k < 1 {
+		k = 1
+	}
+	// variant "move counter 1": under the opening rule the mover places a flat of the OTHER colour, so give the move to the
+	// other side: the final flat placement of the real game then produces the same final board and ends the game at ply 0 / 1
+	openingVariant := n >= 1 && ms[n-1].Type == tak.PlaceFlat && r.Intn(3) == 0
+	if openingVariant {
+		k = 1
+	}
+	j := n - k // the file starts at ps[j]; ms[j:] lead to the end of the game
+	start := ps[j]
+	// the TPS of ps[j] with a small move number
+	f := strings.Fields(ptn.FormatTPS(start))
+	mvn := 2 + r.Intn(2)
+	turn, _ := strconv.Atoi(f[1])
+	if openingVariant {
+		mvn = 1
+		turn = 3 - turn
+		f[1] = strconv.Itoa(turn)
+	} else if r.Intn(8) == 0 {
+		mvn = 1 // opening rule on a populated board: the continuation is mostly illegal now
+	}
+	f[2] = strconv.Itoa(mvn)
+	g.start = absOf(start)
+	g.start.ply = 2*(mvn-1) + (turn - 1)
+	tps := ptn.Tag{Name: "TPS", Value: strings.Join(f, " ")}
+	sz := ptn.Tag{Name: "Size", Value: strconv.Itoa(size)}
+	if r.Intn(2) == 0 {
+		g.tags = []ptn.Tag{sz, tps}
+	} else {
+		g.tags = []ptn.Tag{tps, sz}
+	}
+	// the winning continuation, judged by the rules oracle from the re-numbered start (with ply < 2 the opening rule applies,
+	// so a move may have become illegal: then the record contains an illegal move, which is a case of its own)
+	a := g.start
+	var moves []tak.Move
+	ended, illegal := false, false
+	for _, m := range ms[j:] {
+		moves = append(moves, m)
+		na := a.rulesMove(m)
+		if na == nil {
+			illegal = true
+			break
+		}
+		a = na
+		if over, _, _ := a.outcome(); over {
+			ended = true
+			break
+		}
+	}
+	// further moves after the end (legal on the final position as far as the engine is concerned)
+	after := 0
+	if ended {
+		legal := legalMoves(ps[n])
+		for t := 0; t < 1+r.Intn(4) && len(legal) > 0; t++ {
+			moves = append(moves, legal[r.Intn(len(legal))])
+			after++
+		}
+		if r.Intn(3) == 0 { // and a whole further "game" of moves from other positions
+			for t := 0; t < 2+r.Intn(6); t++ {
+				moves = append(moves, ms[r.Intn(len(ms))])
+				after++
+			}
+		}
+	}
+	c.stat(fmt.Sprintf("endgames_size%d", size), 1)
+	c.stat(fmt.Sprintf("endgames_startply%d", g.start.ply), 1)
+	if ended {
+		c.stat("endgames_ended_in_file", 1)
+		c.stat(fmt.Sprintf("endgames_end_after_%02d_plies", len(moves)-after), 1)
+	}
+	if illegal {
+		c.stat("endgames_illegal_under_opening_rule", 1)
+	}
+	if after > 0 {
+		c.stat("endgames_moves_after_end", 1)
+	}
+	startPly := g.start.ply
+	if r.Intn(12) == 0 { // the Size tag contradicts the TPS board: no start position, every request is an error
+		for i := range g.tags {
+			if g.tags[i].Name == "Size" {
+				g.tags[i].Value = strconv.Itoa(3 + (size-3+1+r.Intn(5))%6)
+			}
+		}
+		g.startErr, g.start, g.note = true, nil, "endgame-size-mismatch"
+		c.stat("endgames_size_mismatch", 1)
+	}
+	c12BuildOps(c, g, moves, startPly, false, a)
 	return g
 }
 
@@ -848,7 +968,7 @@ func c12EmitGame(c *ctx, g *c12Game, sample bool) {
 	if g.bom {
 		text = append([]byte("\xef\xbb\xbf"), text...)
 	}
-	qs := c12Queries(c.r, g.ops, 20+20*b2i(!c.quick()))
+	qs := c12Queries(c.r, g.ops, 16+8*b2i(!c.quick()))
 	o := c12Run(text, qs)
 	input := fmt.Sprintf("G ; %s ; %s ; %s", c12EncStruct(g.tags, g.ops), hex.EncodeToString(text), c12QueryStr(qs))
 	c.stat("cases", 1)
@@ -952,17 +1072,23 @@ func runC12(c *ctx) {
 	for _, v := range []string{"9", "2", "0", "-1", "12", "255", "256", "4294967299"} {
 		c12EmitText(c, []byte("[Size \""+v+"\"]\n\n1. a1 b1\n"), "size-tag", true, qs)
 	}
-	games := 1000 * c.scale
+	games := 450
+	if !c.quick() {
+		games = 4000
+	}
 	for i := 0; i < games; i++ {
 		g := c12GenGame(c)
-		c12EmitGame(c, g, i < 4)
+		c12EmitGame(c, g, i < 3)
 		if i%3 == 0 {
 			c12Mutations(c, g)
+		}
+		if i%3 == 1 { // directed: TPS start with a low move counter, game over within the file, moves after the end
+			c12EmitGame(c, c12GenEndgame(c, 3+(i/3)%6), i < 6)
 		}
 	}
 	// random byte strings over the PTN alphabet
 	alpha := []string{"[", "]", "\"", "{", "}", " ", "\n", ".", "1", "2", "a", "b", "c", "Size", "TPS", "x3/x3/x3 1 1", "R-0", "-", "+", "<", ">", "?", "!", "'", "S", "C", "F", "/", "\x85", "\xa0", "\xef\xbb\xbf", "3", "5"}
-	for i := 0; i < 300*c.scale; i++ {
+	for i := 0; i < 300*(1+4*b2i(!c.quick())); i++ {
 		c12EmitText(c, []byte(c12RandText(c.r, alpha, 24)), "random", false, qs[:4])
 	}
 }
